@@ -102,7 +102,13 @@ func (p *c16) structRT(rec *core.Recorder, r *core.Rand, tier string) {
 			for _, n := range []int{10, len(ct.Source), 70000} {
 				twig.SerializeCompiledTemplate(&twig.CompiledTemplate{Name: "other", Source: strings.Repeat("Z", n), LastModified: 7, CompileTime: 8})
 			}
-			back, err = twig.DeserializeCompiledTemplate(data)
+			// the bytes handed to the decoder belong to the caller as well: a read buffer that is used again afterwards
+			// must not reach into what was decoded from it
+			buf := bytes.Clone(data)
+			back, err = twig.DeserializeCompiledTemplate(buf)
+			for i := range buf {
+				buf[i] = '#'
+			}
 		}
 	})
 	rec.Count("bytes-held-across-other-serialisations", 1)
@@ -331,11 +337,17 @@ func (p *c16) pipeline(rec *core.Recorder, r *core.Rand, viaLoader bool) {
 						b.Render(entry, ctx)
 					}
 				}
+				// all blobs pass through one read buffer, as when they are read from a stream one after the other
+				var readBuf []byte
 				for _, n := range sortedKeys(blobs) {
-					if err := b.LoadFromCompiledData(blobs[n]); err != nil {
+					readBuf = append(readBuf[:0], blobs[n]...)
+					if err := b.LoadFromCompiledData(readBuf); err != nil {
 						rb.Err = fmt.Errorf("LoadFromCompiledData(%s): %w", n, err)
 						return
 					}
+				}
+				for i := range readBuf {
+					readBuf[i] = '#'
 				}
 			}
 			rb.Out, rb.Err = b.Render(entry, ctx)
